@@ -103,6 +103,8 @@ class MultiPeriodStream(ModelMixin["MultiPeriodStream"], Base):
         allowed_name_re = re.compile(f'^[{cls.__ALLOWED_NAME_CHARS}]+$')
         if name is None:
             errors['name'] = 'A name must be provided'
+        elif not isinstance(name, str):
+            errors['name'] = 'Name must be a string'
         elif len(name) < 3:
             errors['name'] = 'Name must be at least 3 characters'
         elif not allowed_name_re.match(name):
@@ -115,7 +117,7 @@ class MultiPeriodStream(ModelMixin["MultiPeriodStream"], Base):
             elif pk is not None:
                 try:
                     ipk = int(pk, 10)
-                except ValueError:
+                except (ValueError, TypeError):
                     errors['pk'] = 'Invalid primary key'
             model = cls.get_one(name=name)
             if model is not None:
@@ -124,6 +126,8 @@ class MultiPeriodStream(ModelMixin["MultiPeriodStream"], Base):
 
         if title is None:
             errors['title'] = 'A title must be provided'
+        elif not isinstance(title, str):
+            errors['title'] = 'Title must be a string'
         elif len(title) < 3:
             errors['title'] = 'Title must be at least 3 characters'
 
